@@ -84,7 +84,7 @@ func genCase(t *rapid.T) copyx.Case {
 	if vt.Thorough() {
 		max = 24
 	}
-	c := copyx.GenBase(t, gen.DAGOpts{MaxNodes: max, Referrers: rapid.Bool().Draw(t, "referrers"), Wide: rapid.Bool().Draw(t, "wide")}, srcKinds, dstKinds)
+	c := copyx.GenBase(t, gen.DAGOpts{MaxNodes: max, Referrers: rapid.Bool().Draw(t, "referrers"), Wide: rapid.Bool().Draw(t, "wide"), AnnKeys: []string{"k"}, AnnVals: []string{"v1", "v2"}}, srcKinds, dstKinds)
 	d := gen.Build(c.Specs)
 	c.API = rapid.SampledFrom([]string{"copygraph", "copy", "extcopygraph"}).Draw(t, "api")
 	if c.API == "extcopygraph" && gen.IsForeignMT(d.Nodes[c.Root].Desc.MediaType) {
@@ -96,6 +96,10 @@ func genCase(t *rapid.T) copyx.Case {
 	c.Callbacks = rapid.Bool().Draw(t, "callbacks")
 	if c.API != "extcopygraph" {
 		c.Pre = copyx.GenPre(t, d, d.Reach(c.Root, true), c.Root)
+	} else if rapid.Bool().Draw(t, "filtered") {
+		// a filter reads the predecessors it judges: source reads of its own
+		c.FilterAnnKey = "k"
+		c.FilterAnnRe = rapid.SampledFrom([]string{"", "v1", "v."}).Draw(t, "filterRe")
 	}
 	ss := sites(&c, d)
 	// sites on nodes that several parents inside the copied graph share: a failure
@@ -132,6 +136,19 @@ func genCase(t *rapid.T) copyx.Case {
 			f.Kind = "cancel"
 		}
 		c.Faults = append(c.Faults, f)
+	}
+	if c.FilterAnnKey != "" {
+		// the read a filter needs: the manifest of a node above the start node
+		own := d.Reach(c.Root, true)
+		var above []int
+		for _, s := range ss {
+			if s.Side == "src" && s.Op == "Fetch" && !own[s.Node] && d.IsManifest(s.Node) {
+				above = append(above, s.Node)
+			}
+		}
+		if len(above) > 0 && rapid.IntRange(0, 2).Draw(t, "faultFilterRead") != 0 {
+			c.Faults[0] = inst.Fault{Side: "src", Op: "Fetch", Node: rapid.SampledFrom(above).Draw(t, "aboveNode"), When: rapid.SampledFrom([]string{"before", "mid"}).Draw(t, "aboveWhen"), Kind: "error"}
+		}
 	}
 	if rapid.IntRange(0, 24).Draw(t, "preCancel") == 0 {
 		c.PreCancel = true
